@@ -440,7 +440,7 @@ Definition ex_pool : list pelem :=
     mk 11 1 3 1001 100 0 1000000 130;   (* 2000 left, charge 2001       -> VPre cBalance, kept (direct) *)
     mk 12 3 1 500 100 0 1000000 130;    (* account 3 owns 2000 by now   -> VSel     *)
     mk 13 2 1 0 99 0 1000000 130;       (* stepLimit < 100              -> VPre cStep, dropped *)
-    mk 14 1 2 0 100 0 1000000 130;      (* 2000 left, charge 1000       -> VSel     *)
+    mk 14 1 2 0 100 0 1000000 130;      (* 2000 + 500 received from 12  -> VSel     *)
     mk 15 2 1 1 100 0 1000000 130 ].    (* count limit 3 reached        -> VStop    *)
 
 Example ex_parent : parent_finalized ex_state 2 true.
@@ -496,13 +496,14 @@ Proof.
 Qed.
 
 (* the hypothesis of cumulative_balance with a non-empty prefix that charged
-   the same sender: 14 is selected after 10, both sent by account 1 *)
+   the same sender: 14 is selected after 10 (both sent by account 1) and after
+   12, which paid 500 to account 1: 5000 - 3000 + 500 = 2500 >= 1000 *)
 Example ex_cumulative :
   let sel := candidate (s_mgr ex_state) ex_fee true 50 1020000 0 3 ex_pool ex_bal in
   let pre := firstn 2 sel in
   exists t, sel = pre ++ t :: [] /\
     x_id t = 14%N /\ debits ex_fee pre (x_from t) = 3000 /\
-    working ex_fee ex_bal pre (x_from t) = 2000 /\ charge ex_fee t = 1000.
+    working ex_fee ex_bal pre (x_from t) = 2500 /\ charge ex_fee t = 1000.
 Proof.
   cbv zeta. eexists. split; [vm_compute; reflexivity|]. vm_compute. repeat split.
 Qed.
